@@ -126,6 +126,30 @@ def vclass(v):
     return (v["oracle"], v["component"])
 
 
+def safe_execute(world, prop, trace):
+    """world.execute, with an exception escaping from it turned into a violation.
+
+    On the unchanged tree execute() never raises (that would have shown up as a
+    harness error while building the checks).  If it raises on a changed tree,
+    the overwhelmingly likely cause is that pyLife handed out something
+    malformed (None, a wrong container, a missing level) which the harness
+    then tripped over; reporting that as a harness error would hide a real
+    defect.  The exception is deterministic, so it minimises and replays like
+    any other violation."""
+    import traceback
+    try:
+        return world.execute(prop, trace)
+    except Exception as e:      # noqa
+        out = Outcome()
+        tb = traceback.extract_tb(e.__traceback__)
+        where = "%s:%s" % (os.path.basename(tb[-1].filename), tb[-1].name) if tb else "?"
+        out.violate("exception", "unexpected-output:" + type(e).__name__,
+                    {"type": type(e).__name__, "msg": str(e)[:300], "raised_in": where,
+                     "note": "exception while the harness was evaluating what pyLife returned"})
+        out.digest = digest(["exception", type(e).__name__, str(e)[:300]])
+        return out
+
+
 def minimise(world, prop, trace, target_class, budget=1500, time_budget=90.0,
              clock=None, accept=None):
     """Greedy delta debugging driven by the world's shrink() candidates.
@@ -137,10 +161,7 @@ def minimise(world, prop, trace, target_class, budget=1500, time_budget=90.0,
     tried = 0
 
     def failing(tr):
-        try:
-            out = world.execute(prop, tr)
-        except Exception:
-            return None   # a candidate that breaks the harness is not a witness
+        out = safe_execute(world, prop, tr)
         for v in out.violations:
             if vclass(v) == target_class and (accept is None or accept(tr, v)):
                 return v
